@@ -378,6 +378,33 @@ def helper_always_notifies(ctx, tu, g, pred, visiting):
     return ok
 
 
+def wait_predicates(ctx, tu, q):
+    """[(wait function, call node, canonical predicate formula)] for the waits of queue class q - predicate overloads (lambda, named
+    closure or functor) and re-check loops around a plain wait. Unreadable predicates are left out (C07.W2 reports them)."""
+    out = []
+    for wf in tu.fns:
+        if wf.skey not in (q + '::wait', q + '::waitFor'):
+            continue
+        for n in wf.calls():
+            cal = wf.callee(n) or {}
+            if cal.get('name') not in ('wait', 'wait_for', 'wait_until') or not wf.call_obj(n):
+                continue
+            args = wf.call_args(n)
+            need = 2 if cal['name'] == 'wait' else 3
+            try:
+                if len(args) == need:
+                    lfn = wf.functor_body(args[-1])
+                    if lfn is not None:
+                        out.append((wf, n, canon_formula(F.formula(lfn))))
+                elif cal['name'] == 'wait':
+                    lp = loop_form_predicate(ctx, wf, n)
+                    if lp is not None:
+                        out.append((wf, n, lp))
+            except (F.Unsupported, AnalysisBroken):
+                pass
+    return out
+
+
 def notify_after(ctx, tu, fn, pos, pred, visiting, no_callers=False):
     """Every normal path from `pos` reaches a notify_* call, or skips it only on the false edge of a test implied
     by the predicate. If the function can return first, all library call sites must satisfy the same."""
@@ -395,16 +422,18 @@ def notify_after(ctx, tu, fn, pos, pred, visiting, no_callers=False):
             for g in fn.callee_fns(n):
                 if g.id != fn.id and queue_of(g) and g.kind != 'lambda' and helper_always_notifies(ctx, tu, g, pred, visiting):
                     notif_pos[fn.pos(n)] = n
-    # forward exploration at element granularity
+    # forward exploration at element granularity. Along a path the outcomes of the tests passed since the write are remembered: a path
+    # on which they contradict the wait predicate has no waiter to wake (false edge of a re-test of the predicate, true edge of a
+    # guard clause `if(! pred) return;`, or the same test spelled out as a short-circuit condition spread over several blocks)
     b0, i0 = pos
-    work = [(b0, i0 + 1)]
+    work = [(b0, i0 + 1, ())]
     seen = set()
     escapes = False
     while work:
-        b, i = work.pop()
-        if (b, i) in seen:
+        b, i, assum = work.pop()
+        if (b, i, assum) in seen:
             continue
-        seen.add((b, i))
+        seen.add((b, i, assum))
         blk = fn.blocks[b]
         hit = False
         for j in range(i, len(blk['elems'])):
@@ -418,37 +447,45 @@ def notify_after(ctx, tu, fn, pos, pred, visiting, no_callers=False):
             continue
         succ = blk['succ']
         if len(succ) == 2 and blk.get('cond'):
-            # false edge of a predicate re-test may skip the notify
-            skip_false = False
-            skip_true = False
+            cf = None
             try:
                 cf = canon_formula(F.boolexpr(fn, blk['cond'], {}, True))
-                if pred is not None:
-                    ok, _ = implies(pred, cf)
-                    skip_false = ok                  # on the false edge the predicate cannot hold: nobody to wake
-                    ok2, _ = implies(pred, ('not', cf))
-                    skip_true = ok2                  # likewise on the true edge of a test the predicate excludes (guard clause `if(!pred) return;`)
             except (F.Unsupported, Exception):
-                skip_false = False
-                skip_true = False
-            # the re-test has to look at the state *after* the write: a local that was computed before the write (and is merely read
+                cf = None
+            # the test has to look at the state *after* the write: a local that was computed before the write (and is merely read
             # here) describes the state another thread may have changed since - skipping the notify on its word loses a wake-up
-            if skip_false or skip_true:
+            if cf is not None:
                 c0 = blk['cond']
                 for d in [c0] + fn.descendants(c0):
                     if fn.nodes[d]['cls'] == 'DeclRefExpr' and fn.decl(d).get('kind') == 'var':
                         vd = fn.var_decls().get(fn.decl(d)['id'])
+                        vt = tu.type(vd['t']) if vd else None
+                        if vt and (vt.get('ref') or vt.get('ptr') is not None):
+                            continue      # a reference / pointer to the queue reads the current state, it is no snapshot
                         if vd and vd.get('stmt') and fn.pos(vd['stmt']) and not fn.pos_reaches(pos, fn.pos(vd['stmt'])):
-                            skip_false = False
-                            skip_true = False
-            if succ[0] is not None and not skip_true:
-                work.append((succ[0], 0))
-            if succ[1] is not None and not skip_false:
-                work.append((succ[1], 0))
+                            cf = None
+                            break
+            for s_, lit in ((succ[0], cf), (succ[1], ('not', cf) if cf is not None else None)):
+                if s_ is None:
+                    continue
+                na = assum
+                if lit is not None and pred is not None:
+                    shown = F.show(cf)
+                    na = tuple(x for x in assum if x[0] != shown) + ((shown, lit),)      # a later test of the same expression replaces the earlier outcome
+                    conj = pred
+                    for _sh, l in na:
+                        conj = ('and', conj, l)
+                    try:
+                        unsat, _ = F.equivalent(conj, ('const', False))
+                    except (F.Unsupported, Exception):
+                        unsat = False
+                    if unsat:
+                        continue          # the predicate cannot hold on this path: nobody to wake
+                work.append((s_, 0, na))
         else:
             for s in succ:
                 if s is not None:
-                    work.append((s, 0))
+                    work.append((s, 0, assum))
     if not escapes:
         return True, ''
     if no_callers:
